@@ -78,7 +78,8 @@ gen_md5_sha (struct vh_setlist *L, int m, int thorough)
   static const char *const costs_sha[] = { "", "rounds=1000$", "rounds=5000$", "rounds=1001$", "rounds=4999$", "rounds=9999$",
     "rounds=10000$", "rounds=999$", "rounds=01000$", "rounds=+1000$", "rounds=-1000$", "rounds=0$", "rounds=$",
     "rounds=1000", "rounds=1e3$", "rounds=99999999999999999999$", "rounds=1000000000$", "rounds=1000$$", "rounds=",
-    "rounds=999999999$", "rounds=5000", "Rounds=1000$", "rounds=1000,x$", 0
+    "rounds=999999999$", "rounds=5000", "Rounds=1000$", "rounds=1000,x$", "rounds=4294968296$", "rounds=8589935592$",
+    "rounds=4294967295$", "rounds=18446744073709552616$", 0
   };
   static const char *const costs_md5[] = { "", "rounds=1000$", 0 };
   const char *const *costs = m == M_MD5 ? costs_md5 : costs_sha;
